@@ -86,10 +86,15 @@ class BasicStructure(ComplexDop):
                 # Padding bytes are needed. We add an empty object at
                 # the position directly after the structure and let
                 # EncodeState add the padding as needed.
-                encode_state.cursor_byte_position = encode_state.origin_byte_position + self.byte_size
+                # (Positions are relative to the beginning of the
+                # structure, not to the origin of the enclosing object.)
+                end_pos = orig_pos + self.byte_size
+                encode_state.cursor_byte_position = end_pos
                 # Padding bytes needed. these count as "used".
-                encode_state.coded_message += b"\x00" * (self.byte_size - actual_len)
-                encode_state.used_mask += b"\xff" * (self.byte_size - actual_len)
+                num_missing = end_pos - len(encode_state.coded_message)
+                if num_missing > 0:
+                    encode_state.coded_message += b"\x00" * num_missing
+                    encode_state.used_mask += b"\xff" * num_missing
 
     @override
     def decode_from_pdu(self, decode_state: DecodeState) -> ParameterValue:
